@@ -651,6 +651,24 @@ func (c *SpecCtx) call(e *SExpr) Val {
 				c.fail("sameField: unknown struct %s", args[1].Args[0].Tok)
 			}
 			return boolVal(Eq(c.st.loadField(r, t, args[1].Tok).C[0], c.old.loadField(r, t, args[1].Tok).C[0]))
+		case "rawelem": // rawelem(x, m): element at absolute position m of x's backing array
+			x := c.eval(args[0])
+			m := c.evalTerm(args[1])
+			et := elemType(x.T)
+			cs := flatten(et)
+			v := Val{T: et, C: make([]*Term, len(cs))}
+			for i, cp := range cs {
+				_, h := c.st.elemHeap(et, cp)
+				v.C[i] = Select(Select(h, x.C[0]), m)
+			}
+			return v
+		case "visited": // visited(n, key): ghost visited-set of map-range loop n
+			n := args[0].Tok
+			g, ok := c.varState().ghost["$visited"+n]
+			if !ok {
+				c.fail("no map-range loop %s in scope", n)
+			}
+			return boolVal(Select(g.C[0], c.evalTerm(args[1])))
 		case "preexisting": // allocated before the call
 			x := c.eval(args[0])
 			return boolVal(Lt(x.C[0], c.old.ctr))
@@ -691,6 +709,21 @@ func (c *SpecCtx) call(e *SExpr) Val {
 				return scalar(g.RetT, g.Lambda(ts))
 			}
 			return scalar(g.RetT, App(g.Name, g.Ret, ts...))
+		}
+		// ghost result of the latest call to a callee: Callee$name(args)
+		if i := strings.Index(fn.Tok, "$"); i > 0 {
+			callee, gname := fn.Tok[:i], fn.Tok[i+1:]
+			for key, inst := range c.ex.lastGhost {
+				if key == callee || strings.HasSuffix(key, "."+callee) {
+					if g, ok := inst[gname]; ok {
+						var ts []*Term
+						for _, a := range args {
+							ts = append(ts, c.evalTerm(a))
+						}
+						return scalar(g.RetT, App(g.Name, g.Ret, ts...))
+					}
+				}
+			}
 		}
 		// uninterpreted spec function: uf_name(args)
 		if strings.HasPrefix(fn.Tok, "uf_") {
